@@ -35,6 +35,7 @@ pinned tree; it exists for the shapes a later change may introduce.
 from __future__ import annotations
 
 import ast
+import os
 import copy
 
 SEP = "__"
@@ -1009,22 +1010,38 @@ def unbundle(sources: dict[str, str]):
     line maps).  Modules that need nothing or cannot be rewritten safely are
     absent from the result."""
     out, notes, maps = {}, [], {}
+    if os.environ.get("JSLSTATIC_NO_PREPASS"):
+        return out, notes, maps  # tools/gen_baseline_api.py freezes the tree as written
     trees = {}
     dealiased = {}
     parsed: dict[str, ast.Module] = {}
     from . import imports_canon
 
     package_modules = {imports_canon._rel_to_mod(r) for r in sources}
+    from . import api_fold
+
+    all_trees: dict[str, ast.Module] = {}
     for rel, src in sources.items():
         try:
-            tree = ast.parse(src)
+            all_trees[rel] = ast.parse(src)
         except SyntaxError:
             continue
-        ns = imports_canon.canonicalise(tree, rel, package_modules)
+    # package-wide passes first (API evolution folded back, see api_fold.py)
+    global_notes: dict[str, list[str]] = {}
+    for gpass in (api_fold.unencapsulate, api_fold.fold_aliases, api_fold.pull_down_new_bases):
+        for r2, ns2 in gpass(all_trees).items():
+            global_notes.setdefault(r2, []).extend(ns2)
+    for rel, src in sources.items():
+        tree = all_trees.get(rel)
+        if tree is None:
+            continue
+        ns = list(global_notes.get(rel, [])) if rel in global_notes else []
+        touched = rel in global_notes
+        ns += imports_canon.canonicalise(tree, rel, package_modules)
         ns += _dealias_bound_methods(tree)
         ns += _materialise_method_aliases(tree, rel, sources, parsed)
-        if ns:
-            dealiased[rel] = ns
+        if ns or touched:
+            dealiased[rel] = ns or ["names folded back (see the defining module)"]
             trees[rel] = tree
         elif "class _" in src:
             trees[rel] = tree
